@@ -10,7 +10,7 @@ Record case := mkCase {
                                    9 ethereum 10 ftp 11 http 12 https 13 ipp 14 ldap 15 memcached 16 ntp
                                    17 redis 18 smtp 19 snmp 20 ssh-auth 21 ssh-simulator 22 telnet 23 tftp 24 vnc *)
   c_udp : bool;
-  c_stream : N;                 (* 1 dialogue 2 truncated 3 mutated 4 raw 5 corpus 6 ssh dialogue 8 tftp load 9 systematic BER 10 size 11 abandoned resource *)
+  c_stream : N;                 (* 1 dialogue 2 truncated 3 mutated 4 raw 5 corpus 6 ssh dialogue 8 tftp load 9 systematic BER 10 size 11 abandoned resource 12 concurrent rare branches *)
   c_conns : list conn;          (* per connection: the writes (tcp) / datagrams (udp) *)
   c_ssh : list (N * bytes);     (* ssh dialogue: channel requests (type code, payload) *)
   c_sshchan : N;                (* 0 session, 1 direct-tcpip, 2 forwarded-tcpip, 3 other *)
@@ -171,6 +171,7 @@ Definition SIG_REDIS_STACK := 16%N.
 Definition SIG_LDAP_STACK := 17%N.
 Definition SIG_FTP_DATA_GOROUTINE := 18%N.
 Definition SIG_STACK := 19%N.
+Definition SIG_CONCURRENT_MAP := 20%N.
 
 (* regression signature of the repaired loop: a dialogue with an env or exec request *)
 Definition ssh_in_class (c : case) : bool :=
@@ -191,6 +192,7 @@ Definition case_sig (c : case) : N :=
   else if ((svc =? 14) && (k =? K_DIED 4))%N then SIG_LDAP_STACK
   else if ((svc =? 10) && (k =? K_DIED 1))%N then SIG_FTP_DATA_GOROUTINE
   else if (k =? K_DIED 4)%N then SIG_STACK
+  else if (k =? K_DIED 2)%N then SIG_CONCURRENT_MAP
   else if negb (o_died c =? 0)%N then SIG_DIED
   else if o_grow c then SIG_GROWTH
   else SIG_NOPROBE.
